@@ -3,10 +3,12 @@ package verifsimkit
 import (
 	"encoding/json"
 	"fmt"
+	"io"
 	"os"
 	"runtime"
 	"sort"
 	"strings"
+	"sync/atomic"
 	"testing"
 	"testing/cryptotest"
 	"testing/synctest"
@@ -23,7 +25,30 @@ type Scenario struct {
 	// LeakIsViolation: a bubble that cannot terminate (goroutines left blocked)
 	// is reported as a violation of class "leak" instead of a harness error.
 	LeakIsViolation bool
+	// PostRun runs after the bubble has ended (outside it); used by oracles that
+	// read process-level state such as the race detector's log.
+	PostRun func(rc *RunCtx)
+	// Isolated: the oracle cannot fire twice in one process (the race detector
+	// reports each race once) or ends the process (hang watchdog); the worker
+	// then writes the replay file from the first failing run without in-process
+	// shrinking, and bin/vcheck shrinks and verifies by fresh-process replays.
+	Isolated bool
+	// HangTimeout > 0: a real-time no-progress watchdog outside the bubble; when
+	// rc.Progress() is not called for a whole period, the process records a
+	// violation of class "hang" (with the goroutines that are not durably
+	// blocked: waiting for locks or spinning) and exits.
+	HangTimeout time.Duration
+	// IgnoreLeak: goroutines left blocked when the scenario returns are not this
+	// scenario's concern (another check owns that property); the dead bubble is
+	// abandoned silently.
+	IgnoreLeak bool
 }
+
+// liveTape, when set, receives the tape of the next run as it is drawn.
+var liveTape io.Writer
+
+// hangHook is installed by WorkerMain; it must not return.
+var hangHook func(r *RunResult, dump string)
 
 var registry = map[string]Scenario{}
 
@@ -46,7 +71,9 @@ type RunCtx struct {
 	Scenario string
 	Params   map[string]string
 
+	progress   atomic.Int64
 	viol       *Violation
+	extra      []Violation
 	harnessErr string
 
 	counters   map[string]int64
@@ -87,6 +114,28 @@ func (rc *RunCtx) Fail(class, format string, a ...any) {
 		rc.viol = &Violation{Class: class, Message: fmt.Sprintf(format, a...)}
 		rc.Logf("VIOLATION %s: %s", class, rc.viol.Message)
 	}
+}
+
+// Progress tells the no-progress watchdog (Scenario.HangTimeout) that the run is alive.
+func (rc *RunCtx) Progress() { rc.progress.Add(1) }
+
+// FailAlso records a further violation of the same run (oracles that see several
+// independent findings at once, e.g. race detector reports); the first one is
+// the run's primary violation.
+func (rc *RunCtx) FailAlso(class, format string, a ...any) {
+	if rc.viol == nil {
+		rc.Fail(class, format, a...)
+		return
+	}
+	if rc.viol.Class == class {
+		return
+	}
+	for _, e := range rc.extra {
+		if e.Class == class {
+			return
+		}
+	}
+	rc.extra = append(rc.extra, Violation{Class: class, Message: fmt.Sprintf(format, a...)})
 }
 
 // Failed is true once a violation or harness error was recorded.
@@ -165,6 +214,7 @@ type RunResult struct {
 	Scenario   string
 	Tape       []uint32
 	Viol       *Violation
+	Extra      []Violation
 	HarnessErr string
 	Counters   map[string]int64
 	Events     []string
@@ -176,7 +226,6 @@ type RunResult struct {
 	SimNs      int64
 	Sample     any
 }
-
 
 func classifyPanic(p any, stack string) (harness bool) {
 	// Walk the stack below the panic frames: the first non-runtime frame tells
@@ -217,8 +266,35 @@ func RunOne(t *testing.T, scen string, seed uint64, vals []uint32, replay bool, 
 	} else {
 		tape = NewTape(seed)
 	}
+	tape.Live = liveTape
 	rc := newRunCtx(seed, tape, tier, scen, params)
 	cryptotest.SetGlobalRandom(t, seed)
+	if sc.HangTimeout > 0 && hangHook != nil {
+		// no-progress watchdog (real time, outside the bubble): the scenario reports progress with rc.Progress();
+		// a run is a hang only when a whole period passes without any, so machine load cannot trip it
+		stop := make(chan struct{})
+		defer close(stop)
+		go func() {
+			last := rc.progress.Load()
+			tk := time.NewTicker(sc.HangTimeout)
+			defer tk.Stop()
+			for {
+				select {
+				case <-stop:
+					return
+				case <-tk.C:
+					cur := rc.progress.Load()
+					if cur != last {
+						last = cur
+						continue
+					}
+					buf := make([]byte, 8<<20)
+					buf = buf[:runtime.Stack(buf, true)]
+					hangHook(&RunResult{Seed: seed, Scenario: scen, Tape: append([]uint32(nil), tape.Rec...)}, string(buf))
+				}
+			}
+		}()
+	}
 
 	body := func(bt *testing.T) {
 		rc.T = bt
@@ -239,11 +315,17 @@ func RunOne(t *testing.T, scen string, seed uint64, vals []uint32, replay bool, 
 	if sc.NoBubble {
 		body(t)
 	} else {
-		func() {
+		// in its own goroutine: when the bubble's T is marked failed (the race detector does that), synctest.Test
+		// ends the calling goroutine with FailNow
+		bubbleDone := make(chan struct{})
+		go func() {
+			defer close(bubbleDone)
 			defer func() {
 				if p := recover(); p != nil {
 					msg := fmt.Sprint(p)
-					if strings.Contains(msg, "deadlock") && sc.LeakIsViolation {
+					if strings.Contains(msg, "deadlock") && sc.IgnoreLeak {
+						rc.Count("probe.bubble_abandoned_with_blocked_goroutines", 1)
+					} else if strings.Contains(msg, "deadlock") && sc.LeakIsViolation {
 						rc.Fail("leak", "bubble could not terminate: %s", msg)
 					} else {
 						rc.HarnessError("bubble panic: %s", msg)
@@ -252,11 +334,15 @@ func RunOne(t *testing.T, scen string, seed uint64, vals []uint32, replay bool, 
 			}()
 			synctest.Test(t, body)
 		}()
+		<-bubbleDone
+	}
+	if sc.PostRun != nil {
+		sc.PostRun(rc)
 	}
 	if tape.Exhausted() {
 		rc.HarnessError("tape exhausted (%d choices)", tape.Pos())
 	}
-	return &RunResult{Seed: seed, Scenario: scen, Tape: tape.Rec, Viol: rc.viol, HarnessErr: rc.harnessErr,
+	return &RunResult{Seed: seed, Scenario: scen, Tape: tape.Rec, Viol: rc.viol, Extra: rc.extra, HarnessErr: rc.harnessErr,
 		Counters: rc.counters, Events: rc.events, NEvents: rc.nEvents, TraceHash: rc.traceHash, ByteHash: rc.byteHash,
 		States: rc.states, Nontrivial: rc.nontrivial, SimNs: rc.simNs, Sample: rc.sample}
 }
@@ -411,6 +497,7 @@ type Job struct {
 	ShrinkS   float64           `json:"shrink_s"`
 	Recheck   int               `json:"recheck"` // re-execute every Nth run and compare hashes (determinism)
 	DumpTrace string            `json:"dump_trace"`
+	LiveTape  string            `json:"live_tape"` // replay: stream the tape to this file while it is drawn
 }
 
 type ReplayFile struct {
@@ -426,6 +513,8 @@ type ReplayFile struct {
 	TraceHash string            `json:"trace_hash"`
 	ByteHash  string            `json:"byte_hash"`
 	Events    []string          `json:"events"`
+	Isolated  bool              `json:"isolated,omitempty"`
+	FromSeed  bool              `json:"from_seed,omitempty"` // no tape stored: re-derive it from run_seed
 }
 
 type WorkerViolation struct {
@@ -436,27 +525,28 @@ type WorkerViolation struct {
 	ReplayPath string `json:"replay_path"`
 	TapeLen    int    `json:"tape_len"`
 	OrigLen    int    `json:"orig_tape_len"`
+	Isolated   bool   `json:"isolated,omitempty"`
 }
 
 type WorkerOut struct {
-	Runs          int               `json:"runs"`
-	Nontrivial    int               `json:"nontrivial"`
-	WallS         float64           `json:"wall_s"`
-	SimNs         int64             `json:"sim_ns"`
-	Events        int64             `json:"events"`
-	Choices       int64             `json:"choices"`
-	Counters      map[string]int64  `json:"counters"`
-	TraceHashes   []uint64          `json:"trace_hashes"`
-	NTTraceHashes []uint64          `json:"nontrivial_trace_hashes"`
-	StateHashes   []uint64          `json:"state_hashes"`
-	Samples       []any             `json:"samples"`
-	Violations    []WorkerViolation `json:"violations"`
-	HarnessErrors []string          `json:"harness_errors"`
-	Rechecked     int               `json:"rechecked"`
-	RecheckDiffs  int               `json:"recheck_diffs"`
-	RecheckDiffSamples []string     `json:"recheck_diff_samples,omitempty"`
-	PerScenario   map[string]int    `json:"per_scenario"`
-	ReplayOutcome *ReplayOutcome    `json:"replay_outcome,omitempty"`
+	Runs               int               `json:"runs"`
+	Nontrivial         int               `json:"nontrivial"`
+	WallS              float64           `json:"wall_s"`
+	SimNs              int64             `json:"sim_ns"`
+	Events             int64             `json:"events"`
+	Choices            int64             `json:"choices"`
+	Counters           map[string]int64  `json:"counters"`
+	TraceHashes        []uint64          `json:"trace_hashes"`
+	NTTraceHashes      []uint64          `json:"nontrivial_trace_hashes"`
+	StateHashes        []uint64          `json:"state_hashes"`
+	Samples            []any             `json:"samples"`
+	Violations         []WorkerViolation `json:"violations"`
+	HarnessErrors      []string          `json:"harness_errors"`
+	Rechecked          int               `json:"rechecked"`
+	RecheckDiffs       int               `json:"recheck_diffs"`
+	RecheckDiffSamples []string          `json:"recheck_diff_samples,omitempty"`
+	PerScenario        map[string]int    `json:"per_scenario"`
+	ReplayOutcome      *ReplayOutcome    `json:"replay_outcome,omitempty"`
 }
 
 type ReplayOutcome struct {
@@ -509,6 +599,19 @@ func WorkerMain(t *testing.T) {
 		return
 	}
 
+	hangHook = func(r *RunResult, dump string) {
+		msg := "run did not finish within the real-time watchdog; goroutines waiting for locks or spinning:\n" + HangSummary(dump)
+		rf := ReplayFile{Property: job.Property, Scenario: r.Scenario, Tier: job.Tier, RunSeed: r.Seed, Params: job.Params,
+			Class: "hang", Message: msg, Tape: r.Tape, OrigTape: len(r.Tape), Events: r.Events, Isolated: true}
+		os.MkdirAll(job.ReplayDir, 0o755)
+		path := fmt.Sprintf("%s/%s-%d.json", job.ReplayDir, sanitize(r.Scenario), r.Seed)
+		writeJSON(path, rf)
+		out.Violations = append(out.Violations, WorkerViolation{Class: "hang", Message: msg, Scenario: r.Scenario, RunSeed: r.Seed,
+			ReplayPath: path, TapeLen: len(r.Tape), OrigLen: len(r.Tape), Isolated: true})
+		out.WallS = time.Since(start).Seconds()
+		writeJSON(job.Out, out)
+		os.Exit(0)
+	}
 	deadline := start.Add(time.Duration(job.BudgetS * float64(time.Second)))
 	traces := map[uint64]struct{}{}
 	nttraces := map[uint64]struct{}{}
@@ -521,6 +624,10 @@ func WorkerMain(t *testing.T) {
 		idx := job.First + i*job.Stride
 		scen := job.Scenarios[int(idx%uint64(len(job.Scenarios)))]
 		seed := RunSeed(job.VerifSeed, job.Property+"/"+scen, idx)
+		if registry[scen].Isolated {
+			// so that the orchestrator can attribute a process death to its run
+			writeJSON(job.Out+".current", map[string]any{"scenario": scen, "run_seed": seed, "index": idx})
+		}
 		r := RunOne(t, scen, seed, nil, false, job.Tier, job.Params)
 		out.Runs++
 		out.PerScenario[scen]++
@@ -578,6 +685,29 @@ func WorkerMain(t *testing.T) {
 			}
 		}
 		if r.Viol != nil {
+			if registry[scen].Isolated {
+				orig := len(r.Tape)
+				tp := trimZeros(r.Tape)
+				for vi, vv := range append([]Violation{*r.Viol}, r.Extra...) {
+					_ = vi
+					seenClass[vv.Class]++
+					if seenClass[vv.Class] > 2 || len(out.Violations) >= 60 {
+						continue
+					}
+					rf := ReplayFile{Property: job.Property, Scenario: scen, Tier: job.Tier, RunSeed: seed, Params: job.Params,
+						Class: vv.Class, Message: vv.Message, Tape: tp, OrigTape: orig,
+						TraceHash: fmt.Sprintf("%016x", r.TraceHash), ByteHash: fmt.Sprintf("%016x", r.ByteHash), Events: r.Events, Isolated: true}
+					os.MkdirAll(job.ReplayDir, 0o755)
+					path := fmt.Sprintf("%s/%s-%d-%016x.json", job.ReplayDir, sanitize(scen), seed, HashString(vv.Class))
+					if err := writeJSON(path, rf); err != nil {
+						out.HarnessErrors = append(out.HarnessErrors, "write replay: "+err.Error())
+						continue
+					}
+					out.Violations = append(out.Violations, WorkerViolation{Class: vv.Class, Message: vv.Message, Scenario: scen,
+						RunSeed: seed, ReplayPath: path, TapeLen: len(tp), OrigLen: orig, Isolated: true})
+				}
+				continue
+			}
 			seenClass[r.Viol.Class]++
 			if seenClass[r.Viol.Class] > 2 || len(out.Violations) >= 6 {
 				continue // enough examples of this class from this worker
@@ -631,7 +761,19 @@ func doReplay(t *testing.T, job *Job, out *WorkerOut) {
 		out.HarnessErrors = append(out.HarnessErrors, "replay parse: "+err.Error())
 		return
 	}
-	r := RunOne(t, rf.Scenario, rf.RunSeed, rf.Tape, true, rf.Tier, rf.Params)
+	hangHook = func(r *RunResult, dump string) {
+		out.Runs = 1
+		out.ReplayOutcome = &ReplayOutcome{Class: "hang", Message: HangSummary(dump), Reproduced: rf.Class == "hang"}
+		writeJSON(job.Out, out)
+		os.Exit(0)
+	}
+	if job.LiveTape != "" {
+		if fh, err := os.Create(job.LiveTape); err == nil {
+			liveTape = fh
+			defer fh.Close()
+		}
+	}
+	r := RunOne(t, rf.Scenario, rf.RunSeed, rf.Tape, !rf.FromSeed, rf.Tier, rf.Params)
 	out.Runs = 1
 	if r.HarnessErr != "" {
 		out.HarnessErrors = append(out.HarnessErrors, r.HarnessErr)
@@ -641,6 +783,11 @@ func doReplay(t *testing.T, job *Job, out *WorkerOut) {
 	if r.Viol != nil {
 		ro.Class, ro.Message = r.Viol.Class, r.Viol.Message
 		ro.Reproduced = r.Viol.Class == rf.Class
+		for _, e := range r.Extra {
+			if e.Class == rf.Class {
+				ro.Class, ro.Message, ro.Reproduced = e.Class, e.Message, true
+			}
+		}
 	}
 	out.ReplayOutcome = ro
 	if job.DumpTrace != "" {
@@ -664,4 +811,40 @@ func sanitize(s string) string {
 		}
 		return '_'
 	}, s)
+}
+
+// HangSummary extracts from a full goroutine dump the goroutines that are not
+// parked durably: those waiting for a mutex/semaphore, runnable or running.
+func HangSummary(dump string) string {
+	var o []string
+	for _, blk := range strings.Split(dump, "\n\n") {
+		nl := strings.IndexByte(blk, '\n')
+		if nl < 0 {
+			continue
+		}
+		head := blk[:nl]
+		if !strings.Contains(head, "synctest bubble") {
+			continue
+		}
+		if strings.Contains(head, "(durable)") || strings.Contains(head, "synctest.Run") {
+			continue
+		}
+		lines := strings.Split(blk, "\n")
+		var fr []string
+		for i := 1; i < len(lines) && len(fr) < 6; i += 2 {
+			fn := lines[i]
+			if k := strings.LastIndexByte(fn, '('); k > 0 {
+				fn = fn[:k]
+			}
+			if strings.HasPrefix(fn, "runtime.") || strings.HasPrefix(fn, "internal/") {
+				continue
+			}
+			fr = append(fr, fn)
+		}
+		o = append(o, head+" "+strings.Join(fr, " < "))
+		if len(o) >= 12 {
+			break
+		}
+	}
+	return strings.Join(o, "\n")
 }
